@@ -15,6 +15,10 @@ type Ctx struct {
 	Tier string
 
 	must, may, mayCut *Locks
+
+	// errStrict: the error-flow rule demands that the returned error is derived
+	// from the failing call's error (carry), not merely certainly non-nil (fail closed)
+	errStrict bool
 }
 
 func (c *Ctx) Thorough() bool { return c.Tier == "thorough" }
